@@ -1,8 +1,8 @@
-(* C06 / meta-operation pass: value preservation for graphs without ArrayToVector, Zip, A2B and
-   B2A (the getter-of-constructor laws for tuples, named tuples and vectors). *)
+(* C06 / meta-operation pass: value preservation for graphs without ArrayToVector and Zip (the
+   getter-of-constructor laws for tuples, named tuples and vectors, and the A2B/B2A cancellations). *)
 From CC Require Import Base.Prelude Base.Scalar Base.Ty Base.Shape Graph.Value Graph.IR Graph.Eval
   Model.Opt Model.Uniquify Proofs.OptBase Proofs.OptSem Proofs.OptSim Proofs.OptFresh Proofs.OptDangling
-  Proofs.OptDup Proofs.OptConst Proofs.OptMeta.
+  Proofs.OptDup Proofs.OptConst Proofs.OptMeta Proofs.EvalProofs Proofs.OptBits.
 
 (* ------------------------------------------------------------------ annotations do not matter *)
 Definition core (nd : node) : op * list Z * ty := (n_op nd, n_deps nd, n_ty nd).
@@ -123,7 +123,26 @@ Qed.
 
 (* operations whose proxies this development covers *)
 Definition simple_meta (o : op) : bool :=
-  match o with OArrayToVector | OZip | OA2B | OB2A _ => false | _ => true end.
+  match o with OArrayToVector | OZip => false | _ => true end.
+
+Lemma eval_a2b t0 tt es :
+  eval_node OA2B [t0] tt [VArr es] = Ok (VArr (flat_map (bits_lsb (Z.to_nat (width (st_of t0)))) es)).
+Proof. reflexivity. Qed.
+Lemma eval_b2a st t0 tt es :
+  eval_node (OB2A st) [t0] tt [VArr es]
+  = Ok (VArr (map from_bits_lsb (chunks (Z.to_nat (width st)) (length es) es))).
+Proof. reflexivity. Qed.
+Lemma eval_a2b_arr t0 tt v0 v : eval_node OA2B [t0] tt [v0] = Ok v -> exists es, v0 = VArr es.
+Proof. destruct v0; [eauto|discriminate]. Qed.
+Lemma eval_b2a_arr st t0 tt v0 v : eval_node (OB2A st) [t0] tt [v0] = Ok v -> exists es, v0 = VArr es.
+Proof. destruct v0; [eauto|discriminate]. Qed.
+
+Lemma flat_map_bits_length w es : length (flat_map (bits_lsb w) es) = (w * length es)%nat.
+Proof. induction es as [|e es IH]; cbn [flat_map length]; [lia|]. rewrite app_length, bits_lsb_length, IH. lia. Qed.
+
+(* the graph contains an A2B or B2A node *)
+Definition bits_ops (nodes : list node) : Prop :=
+  exists nd, In nd nodes /\ (n_op nd = OA2B \/ exists st, n_op nd = OB2A st).
 
 Section MetaSem.
   Variables (nodes : list node) (o : option Z).
@@ -133,9 +152,15 @@ Section MetaSem.
   (* a node has fewer than 2^64 dependencies (a Rust Vec cannot be longer) *)
   Hypothesis Hvec : forall nd, In nd nodes -> Z.of_nat (length (n_deps nd)) < 2 ^ 64.
   Hypothesis Hsimple : forall nd, In nd nodes -> simple_meta (n_op nd) = true.
+  (* the values of the run are well typed (C09: type soundness of evaluation; for tape entries: of the inputs) *)
+  Hypothesis Hvt : bits_ops nodes ->
+    forall i nd v, nth_error nodes i = Some nd -> nth_error vals i = Some v -> has_type v (n_ty nd) = true.
 
   Definition old_val (d : Z) (w : value) : Prop := 0 <= d /\ nth_error vals (Z.to_nat d) = Some w.
   Definition old_ty (d : Z) (t : ty) : Prop := 0 <= d /\ nth_error (map n_ty nodes) (Z.to_nat d) = Some t.
+
+  Definition leaf_valid (t : ty) : Prop := (exists s0, t = TScalar s0) \/ (exists sh s0, t = TArray sh s0 /\ sh <> []).
+  Definition b2a_ty (sh : list Z) (st : scalar) : ty := match sh with [] => TScalar st | _ => TArray sh st end.
 
   (* the types the graph builder assigns to constructors and getters *)
   Definition meta_typed : Prop :=
@@ -149,6 +174,8 @@ Section MetaSem.
       | ONamedTupleGet name => exists fs k, dts = [TNamed fs] /\ named_index fs name = Some k /\
                                             znth (map snd fs) k = Ok (n_ty nd)
       | OVectorGet => exists n it, dts = [TVector n (n_ty nd); it]
+      | OA2B => exists t0, dts = [t0] /\ leaf_valid t0 /\ n_ty nd = TArray (shape_of t0 ++ [width (st_of t0)]) Bit
+      | OB2A st => exists sh, dts = [TArray (sh ++ [width st]) Bit] /\ n_ty nd = b2a_ty sh st
       | _ => True
       end.
   Hypothesis Htyped : meta_typed.
@@ -171,6 +198,12 @@ Section MetaSem.
     | PVector l => exists ds ws et, Forall2 (elem_desc meta m) l ds /\ Forall2 old_val ds ws /\
                                     Forall (fun d => old_ty d et) ds /\ v = VTup ws /\
                                     t = TVector (Z.of_nat (length l)) et /\ Z.of_nat (length l) < 2 ^ 64
+    | PA2B n => exists dx vx tx, 0 <= dx /\ nth_error m (Z.to_nat dx) = Some (Some n) /\ old_val dx vx /\ old_ty dx tx /\
+                            leaf_valid tx /\ t = TArray (shape_of tx ++ [width (st_of tx)]) Bit /\
+                            eval_node OA2B [tx] t [vx] = Ok v
+    | PB2A n => exists dx vx st sh, 0 <= dx /\ nth_error m (Z.to_nat dx) = Some (Some n) /\ old_val dx vx /\
+                               old_ty dx (TArray (sh ++ [width st]) Bit) /\ t = b2a_ty sh st /\
+                               eval_node (OB2A st) [TArray (sh ++ [width st]) Bit] t [vx] = Ok v
     | _ => False
     end.
 
@@ -192,6 +225,8 @@ Section MetaSem.
     - intros (ds & ws & ts & H & R). exists ds, ws, ts. split; auto using Forall2_elem_desc_mono.
     - intros (ds & ws & ts & H & R). exists ds, ws, ts. split; auto using Forall2_elem_desc_mono.
     - intros (ds & ws & et & H & R). exists ds, ws, et. split; auto using Forall2_elem_desc_mono.
+    - intros (dx & vx & tx & D & E & R). exists dx, vx, tx. split; auto. split; auto using nth_error_app1'.
+    - intros (dx & vx & st & sh & D & E & R). exists dx, vx, st, sh. split; auto. split; auto using nth_error_app1'.
   Qed.
 
   Definition meta_ok (pre : list node) (m : list (option Z)) (meta : list (Z * pw)) : Prop :=
@@ -347,6 +382,19 @@ Section MetaSem.
       - intros L. destruct De as (_ & Ee & _). apply Hb in Ee. fold out in Ee. lia.
     Qed.
 
+    Lemma outcome_redirect out1 p j' d :
+      0 <= d -> nth_error m (Z.to_nat d) = Some (Some j') -> old_val d v_a -> old_ty d (n_ty a) ->
+      shape_ok meta m p v_a (n_ty a) -> outcome_ok out1 out1 (Some (p, j')).
+    Proof.
+      intros D E Ov Ot Sh.
+      assert (De : elem_desc meta m (PUnknown, j') d) by (split; auto; split; auto; left; reflexivity).
+      destruct (resolve_elem _ _ _ _ _ _ _ Mo De Ov Ot) as (_ & Hr).
+      split; [intros e0 E0; injection E0 as <-; exact Sh|]. split.
+      - intros tape' vals1 V S R. exists vals1. split; [auto|split; [auto|split; [|auto]]].
+        apply (Hr out1 vals1 (length pre)); auto.
+      - intros L. cbn [snd]. apply Hb in E. fold out in E. lia.
+    Qed.
+
     Variables (deps : list Z).
     Hypothesis Ed : mapM (map_get m) (n_deps a) = Ok deps.
     Hypothesis Ia : In a nodes.
@@ -421,6 +469,94 @@ Section MetaSem.
         destruct t as [[]| | | |]; try (injection Em as <- <-; apply outcome_none).
         destruct v as [[|x [|y l]]|]; try (injection Em as <- <-; apply outcome_none).
         injection Em as <- <-. apply outcome_simple. cbn. split; auto. eapply Hct; eauto.
+      - (* A2B *)
+        assert (Ft : from_tape (n_op a) = false) by (rewrite Eo; reflexivity).
+        destruct (old_eval Ft) as (vs & dts & A1 & A2 & A3 & A4). rewrite Eo in A4.
+        pose proof (Htyped _ _ _ Ea A3) as Ht. rewrite Eo in Ht. destruct Ht as (t0 & -> & Lv0 & Eta).
+        destruct (n_deps a) as [|d0 [|d1 dl]] eqn:Eda; inversion A2 as [|? ? ? ? Ot0 A2']; subst; inversion A2'; subst.
+        inversion A1 as [|? v0 ? ? Ov0 A1']; subst. inversion A1'; subst. clear A1 A1' A2 A2'.
+        cbn [mapM] in Ed. apply bind_ok in Ed as (jd & Ejd & Ed). cbn [bind] in Ed. injection Ed as <-.
+        apply map_get_ok in Ejd as (D0 & Ejd). cbn [nth] in Em.
+        assert (Sh : shape_ok meta m (PA2B jd) v_a (n_ty a)).
+        { exists d0, v0, t0. repeat split; auto; try apply Ot0; try apply Ov0; try (now rewrite <- Eta). }
+        injection Em as <- <-.
+        unfold meta_deps. try rewrite Eda. cbn [map nth].
+        destruct (meta_find meta d0) as [[p0 j0]|] eqn:Fm; [|now apply outcome_simple].
+        destruct p0; try (now apply outcome_simple).
+        (* the operand is B2A of some node: A2B (B2A x) = x *)
+        apply meta_find_some in Fm. destruct (Mo _ _ Fm) as (_ & _ & v0' & nd0 & V0 & N0 & Sh0).
+        assert (v0' = v0) by (destruct Ov0; congruence). subst v0'.
+        assert (n_ty nd0 = t0) by (destruct Ot0 as (_ & Ot0); rewrite (map_nth_error n_ty _ _ N0) in Ot0; congruence).
+        subst t0. cbn [fst] in Sh0. destruct Sh0 as (dx & vx & st' & sh & Dx & Emx & Ovx & Otx & Et0 & Ob).
+        destruct (eval_b2a_arr _ _ _ _ _ Ob) as (es & ->). rewrite eval_b2a in Ob. injection Ob as <-.
+        rewrite eval_a2b in A4. injection A4 as A4.
+        assert (Hbo : bits_ops nodes) by (exists a; split; auto).
+        assert (Hx : has_type (VArr es) (TArray (sh ++ [width st']) Bit) = true).
+        { destruct Otx as (_ & Otx). rewrite nth_error_map in Otx.
+          destruct (nth_error nodes (Z.to_nat dx)) as [ndx|] eqn:Nx; [|discriminate]. injection Otx as <-.
+          eapply (Hvt Hbo); eauto. apply Ovx. }
+        apply has_type_bits in Hx as (Hl & Hbits). rewrite prod_list_snoc in Hl.
+        assert (Est : st_of (n_ty nd0) = st') by (rewrite Et0; destruct sh; reflexivity).
+        assert (Esh : shape_of (n_ty nd0) = sh) by (rewrite Et0; destruct sh; reflexivity).
+        rewrite Est in A4. pose proof (width_pos st') as Wp.
+        rewrite (a2b_b2a_chunks (Z.to_nat (width st')) ltac:(lia) (Z.to_nat (prod_list sh)) (length es) es) in A4; auto; try nia.
+        eapply (outcome_redirect _ _ _ dx); eauto.
+        + rewrite <- A4. exact Ovx.
+        + rewrite Eta, Esh, Est. exact Otx.
+      - (* B2A *)
+        assert (Ft : from_tape (n_op a) = false) by (rewrite Eo; reflexivity).
+        destruct (old_eval Ft) as (vs & dts & A1 & A2 & A3 & A4). rewrite Eo in A4.
+        pose proof (Htyped _ _ _ Ea A3) as Ht. rewrite Eo in Ht. destruct Ht as (sh & -> & Eta).
+        destruct (n_deps a) as [|d0 [|d1 dl]] eqn:Eda; inversion A2 as [|? ? ? ? Ot0 A2']; subst; inversion A2'; subst.
+        inversion A1 as [|? v0 ? ? Ov0 A1']; subst. inversion A1'; subst. clear A1 A1' A2 A2'.
+        cbn [mapM] in Ed. apply bind_ok in Ed as (jd & Ejd & Ed). cbn [bind] in Ed. injection Ed as <-.
+        apply map_get_ok in Ejd as (D0 & Ejd). cbn [nth] in Em.
+        assert (Sh : shape_ok meta m (PB2A jd) v_a (n_ty a)).
+        { exists d0, v0, st, sh. repeat split; auto; try apply Ot0; try apply Ov0; try (now rewrite <- Eta). }
+        apply bind_ok in Em as (node & En & Em). injection Em as <- <-.
+        unfold meta_deps in En. try rewrite Eda in En. cbn [map nth] in En.
+        destruct (meta_find meta d0) as [[p0 j0]|] eqn:Fm; [|injection En as <-; now apply outcome_simple].
+        destruct p0; try (injection En as <-; now apply outcome_simple).
+        (* the operand is A2B of some node x: B2A st (A2B x) = x when st is the scalar type of x *)
+        apply bind_ok in En as (at_ & Eat & En). injection En as <-.
+        apply meta_find_some in Fm. destruct (Mo _ _ Fm) as (_ & _ & v0' & nd0 & V0 & N0 & Sh0).
+        assert (v0' = v0) by (destruct Ov0; congruence). subst v0'.
+        assert (Et0 : n_ty nd0 = TArray (sh ++ [width st]) Bit)
+          by (destruct Ot0 as (_ & Ot0); rewrite (map_nth_error n_ty _ _ N0) in Ot0; congruence).
+        cbn [fst] in Sh0. destruct Sh0 as (dx & vx & tx & Dx & Emx & Ovx & Otx & Lvx & Et0' & Oa).
+        rewrite Et0 in Et0', Oa. injection Et0' as Esh. apply app_inj_tail in Esh as (Esh & Ew).
+        split; [intros e0 E0; injection E0 as <-; exact Sh|]. split.
+        + intros tape' vals1 V1 S1 R1. exists vals1. split; [auto|split; [auto|split; [|auto]]]. cbn [snd].
+          destruct (scalar_eqb st (st_of at_)) eqn:Q; [|exact R1].
+          apply scalar_eqb_eq in Q.
+          destruct (sim_lookup _ _ _ _ _ _ S1 Emx Ovx Otx) as (Jn & Vn & Tn).
+          assert (at_ = tx).
+          { unfold node_ty_at in Eat. apply bind_ok in Eat as (ndn & En & Eat). injection Eat as <-.
+            apply znth_ok in En as (_ & En). rewrite (map_nth_error n_ty _ _ En) in Tn. congruence. }
+          subst at_.
+          assert (Hbo : bits_ops nodes) by (exists a; split; eauto).
+          assert (Hx : has_type vx tx = true).
+          { destruct Otx as (_ & Otx'). rewrite nth_error_map in Otx'.
+            destruct (nth_error nodes (Z.to_nat dx)) as [ndx|] eqn:Nx; [|discriminate]. injection Otx' as <-.
+            eapply (Hvt Hbo); eauto. apply Ovx. }
+          destruct (eval_a2b_arr _ _ _ _ Oa) as (es & ->). rewrite eval_a2b in Oa. injection Oa as <-.
+          rewrite eval_b2a in A4. injection A4 as A4.
+          assert (Lf : is_leaf tx = true) by (destruct Lvx as [(s0 & ->)|(shx & s0 & -> & _)]; reflexivity).
+          pose proof (has_type_leaf_range _ _ Lf Hx) as Rg. rewrite <- Q in Rg.
+          pose proof (width_pos st) as Wp.
+          rewrite <- Q, flat_map_bits_length in A4.
+          rewrite (b2a_a2b_chunks (Z.to_nat (width st)) ltac:(lia)) in A4; [| nia |].
+          2:{ eapply Forall_impl; [|exact Rg]. intros e He. unfold modulus in He. rewrite Z2Nat.id by lia. exact He. }
+          assert (Ovx' : old_val dx v_a) by (rewrite <- A4; exact Ovx).
+          assert (De : elem_desc meta m (PUnknown, n) dx) by (split; auto; split; auto; left; reflexivity).
+          assert (Ota : old_ty dx (n_ty a)).
+          { rewrite Eta. destruct Lvx as [(s0 & ->)|(shx & s0 & -> & Nn)]; cbn [shape_of st_of] in *.
+            - subst sh st. exact Otx.
+            - subst sh st. destruct shx; [congruence|exact Otx]. }
+          destruct (resolve_elem _ _ _ _ _ _ _ Mo De Ovx' Ota) as (_ & Hr).
+          apply (Hr _ vals1 (length pre)); auto.
+        + intros L. cbn [snd]. destruct (scalar_eqb st (st_of at_)); [|unfold simple; lia].
+          apply Hb in Emx. fold out in Emx. lia.
       - (* CreateTuple *)
         injection Em as <- <-. apply outcome_simple.
         assert (Ft : from_tape (n_op a) = false) by (rewrite Eo; reflexivity).
@@ -727,12 +863,14 @@ Section MetaSem.
   Qed.
 End MetaSem.
 
-(* value preservation of the meta-operation pass on graphs without ArrayToVector, Zip, A2B, B2A *)
+(* value preservation of the meta-operation pass on graphs without ArrayToVector and Zip *)
 Theorem meta_sem_thm infer nodes o p tape vals :
   valuation eval_node from_tape nodes tape vals ->
   const_typed nodes ->
   (forall nd, In nd nodes -> Z.of_nat (length (n_deps nd)) < 2 ^ 64) ->
   (forall nd, In nd nodes -> simple_meta (n_op nd) = true) ->
+  (bits_ops nodes ->
+   forall i nd v, nth_error nodes i = Some nd -> nth_error vals i = Some v -> has_type v (n_ty nd) = true) ->
   meta_typed nodes ->
   opt_meta nodes o = Ok p ->
   ft_first from_tape nodes (po_map p) /\
@@ -742,8 +880,8 @@ Theorem meta_sem_thm infer nodes o p tape vals :
     exists vals', valuation eval_node from_tape (po_nodes p) tape' vals' /\
                   sim nodes (po_nodes p) vals vals' (po_map p).
 Proof.
-  intros V Ct Rg Sm Ty H. rewrite opt_meta_unfold in H.
+  intros V Ct Rg Sm Vt Ty H. rewrite opt_meta_unfold in H.
   apply bind_ok in H as ([s i] & E & H). injection H as <-. cbn [po_nodes po_map].
-  apply (meta_sem_inv nodes o tape vals V Ct Rg Sm Ty infer) in E as (_ & L & An & _ & _ & F & T & I).
-  split; [|split; [auto|split; auto]]. apply first_tape_ft with (pre := nodes) (post := []); auto. now rewrite app_nil_r.
+  apply (meta_sem_inv nodes o tape vals V Ct Rg Sm Vt Ty infer) in E as (_ & L & An & _ & _ & F & T & I).
+  split; [|split; [auto|split; auto]]. eapply first_tape_ft with (pre := nodes) (post := []); eauto. now rewrite app_nil_r.
 Qed.
